@@ -8,6 +8,21 @@ int g_last;                /* last byte of the input (start[g_len-1]), -1 for th
 #define G_EFF ((size_t)H_EFF(g_len, g_last))
 #define NEXT_PH H_NEXT_PH(g_ph, g_run, g_la)
 
+#ifdef SAFETY_ONLY
+/* C06 variant: memory safety / termination / frame only, independent of the functional specification */
+int is_ascii_domain(const char *start, const char *end)
+__CPROVER_requires(RANGE_REQ(start, end, (size_t)0x7ffffff0) && start[g_len] == 0)
+__CPROVER_assigns()
+__CPROVER_ensures(__CPROVER_return_value <= 0 && __CPROVER_return_value > -EEAV_MAX)
+;
+
+#define EAV_VERIF_LOOP_is_ascii_domain \
+    __CPROVER_assigns(cp, ch, label_length, label_count, non_numeric) \
+    __CPROVER_loop_invariant(IN_OBJ(cp, start, end) && __CPROVER_POINTER_OFFSET(end) <= __CPROVER_POINTER_OFFSET(start) + g_len && __CPROVER_POINTER_OFFSET(end) <= __CPROVER_POINTER_OFFSET(start) + 254 && label_length >= 0 && (size_t)label_length <= (size_t)(cp - start) && label_count >= 0 && (size_t)label_count <= (size_t)(cp - start) \
+        && (label_length > 0 ==> cp > start)) \
+    __CPROVER_decreases(end - cp)
+
+#else
 int is_ascii_domain(const char *start, const char *end)
 /* every call site passes a NUL-terminated string: start[g_len] == 0 (the hyphen test reads cp[1]) */
 __CPROVER_requires(RANGE_REQ(start, end, (size_t)0x7ffffff0) && start[g_len] == 0)
@@ -51,13 +66,19 @@ __CPROVER_ensures(__CPROVER_return_value == -EEAV_DOMAIN_NUMERIC ==> (g_nn == 0 
     g_cur = g_la; g_ph = H_NEXT_PH(g_ph, g_run, g_cur); g_run = H_NEXT_RUN(g_run, g_cur); g_nn = H_NEXT_NN(g_nn, g_cur); \
     g_pos++; g_la = BYTE_AT(cp + 1);
 
+#endif
+
 #include <src/is_ascii_domain.c>
 
 void harness(void)
 {
     const char *s, *e;
     int r = is_ascii_domain(s, e);
+#ifndef SAFETY_ONLY
     __CPROVER_assert(!(r == 0 && g_pos == G_EFF && g_len >= 5 && g_last == '.'), "REACH: accepting exit with root dot");
     __CPROVER_assert(!(r == -EEAV_DOMAIN_NUMERIC), "REACH: numeric");
     __CPROVER_assert(!(r == -EEAV_DOMAIN_LABEL_TOO_LONG), "REACH: label too long");
+#else
+    __CPROVER_assert(r > 0, "REACH: returns");
+#endif
 }
